@@ -325,6 +325,10 @@ func TestC16(t *testing.T) {
 		{"fewer-deadlines-than-ids", []*pubsubpb.StreamingPullRequest{{Subscription: w.Sub, StreamAckDeadlineSeconds: 10}, {ModifyDeadlineAckIds: append(append([]string{}, w.ForeignAck[:1]...), w.StaleAck...), ModifyDeadlineSeconds: []int32{10}}}},
 		{"more-deadlines-than-ids-in-first-message", []*pubsubpb.StreamingPullRequest{{Subscription: w.Sub, StreamAckDeadlineSeconds: 10, ModifyDeadlineAckIds: w.ForeignAck[:1], ModifyDeadlineSeconds: []int32{10, 0}}}},
 		{"per-id-deadlines", []*pubsubpb.StreamingPullRequest{{Subscription: w.Sub, StreamAckDeadlineSeconds: 10}, {ModifyDeadlineAckIds: append(append([]string{}, w.ForeignAck...), w.StaleAck...), ModifyDeadlineSeconds: mixedDeadlines(len(w.ForeignAck) + len(w.StaleAck))}}},
+		// a late or duplicate give-back: every id in the request is settled already, or never existed
+		{"zero-deadline-for-settled-ids-only", []*pubsubpb.StreamingPullRequest{{Subscription: w.Sub, StreamAckDeadlineSeconds: 10}, {ModifyDeadlineAckIds: w.StaleAck, ModifyDeadlineSeconds: make([]int32, len(w.StaleAck))}}},
+		{"zero-deadline-for-unknown-ids-only", []*pubsubpb.StreamingPullRequest{{Subscription: w.Sub, StreamAckDeadlineSeconds: 10}, {ModifyDeadlineAckIds: []string{"6f1e0c3a-9d0b-4f5e-8a21-0123456789ab", "6f1e0c3a-9d0b-4f5e-8a21-0123456789ac"}, ModifyDeadlineSeconds: []int32{0, 0}}}},
+		{"ack-of-unknown-ids-only", []*pubsubpb.StreamingPullRequest{{Subscription: w.Sub, StreamAckDeadlineSeconds: 10}, {AckIds: []string{"6f1e0c3a-9d0b-4f5e-8a21-0123456789ab"}}}},
 		{"garbage-ack-ids", []*pubsubpb.StreamingPullRequest{{Subscription: w.Sub, StreamAckDeadlineSeconds: 10}, {AckIds: []string{"zzz", ""}}}},
 		{"garbage-modify-ids", []*pubsubpb.StreamingPullRequest{{Subscription: w.Sub, StreamAckDeadlineSeconds: 10}, {ModifyDeadlineAckIds: []string{"zzz"}, ModifyDeadlineSeconds: []int32{0}}}},
 		{"negative-deadline", []*pubsubpb.StreamingPullRequest{{Subscription: w.Sub, StreamAckDeadlineSeconds: 10}, {ModifyDeadlineAckIds: w.ForeignAck, ModifyDeadlineSeconds: negs(len(w.ForeignAck))}}},
